@@ -48,6 +48,9 @@ package ecs
 //@   nosafety all pre
 //@   assert at call (net/netip.Addr).Prefix#1: sub.SourceScope != 0 && arg1 == int(sub.SourceScope) && lastret("internal/ecs.ipToAddr", 1) && arg0 == lastret("internal/ecs.ipToAddr") && ((sub.Family == 1 && lastret("(net/netip.Addr).Is4")) || (sub.Family == 2 && lastret("(net/netip.Addr).Is6")))
 //@   assert at return#9: result1 && result0 == lastret("(net/netip.Addr).Prefix") && lastret("(net/netip.Addr).Prefix", 1) == nil
+//@   # a declared scope is honoured (the answer stays scoped, ClampScope then narrows it to the source) also when the
+//@   # authority declares a scope LONGER than the source it echoes - treating that as "global" would share a tailored answer
+//@   possible at return#9: sub.SourceScope > sub.SourceNetmask
 //@   assert at return#1: !result1
 //@   assert at return#2: !result1
 //@   assert at return#3: !result1
